@@ -133,10 +133,11 @@ Qed.
 
 Lemma ity_in_number t x : ity_min t <= x <= ity_max t -> wf_int x = true.
 Proof.
-  unfold wf_int, i64_min, u64_max. intros H.
+  unfold wf_int, i64_min, u64_max. intros [H1 H2].
   apply andb_true_iff. rewrite !Z.leb_le.
-  destruct t; vm_compute in H; destruct H as [H1 H2];
-    (split; [ apply Z.le_trans with (2 := H1) | apply Z.le_trans with (1 := H2) ]; discriminate).
+  assert (A : -9223372036854775808 <= ity_min t) by (destruct t; vm_compute; discriminate).
+  assert (B : ity_max t <= 18446744073709551615) by (destruct t; vm_compute; discriminate).
+  lia.
 Qed.
 
 Ltac tv_tac :=
@@ -168,8 +169,8 @@ Proof.
   intros H I. rewrite (int_to_value _ _ _ H I).
   pose proof I as I'. apply in_ty_spec in I'.
   apply (int_exact _ _ _ _ H).
-  - cbn [wf_gv]. apply (ity_in_number (ii_prim im)). tauto.
-  - unfold denotes_int. tauto.
+  - cbn [wf_gv]. apply (ity_in_number (ii_prim im)). exact (proj1 I').
+  - unfold denotes_int. split; [reflexivity | exact I'].
 Qed.
 
 (* integral floats do not denote integers and are rejected by every row *)
@@ -182,7 +183,6 @@ Lemma str_eqb_eq a b : str_eqb a b = true <-> a = b.
 Proof.
   unfold str_eqb, list_eqb. revert b.
   induction a as [|x a IH]; destruct b as [|y b]; cbn [forallb2]; try (split; congruence).
-  - tauto.
   - rewrite andb_true_iff, IH, N.eqb_eq. split; [intros [-> ->]; reflexivity | intros H; inversion H; auto].
 Qed.
 
@@ -206,8 +206,10 @@ Proof. reflexivity. Qed.
 (* char: exactly the strings of one Unicode scalar value *)
 Theorem char_exact v c : parse_char v = Ok c <-> v = GStr [c].
 Proof.
-  destruct v as [| | |s| | | | |]; cbn; try (split; intros H; inversion H).
-  destruct s as [|a [|b s]]; split; intros H; inversion H; reflexivity.
+  destruct v as [| | |s| | | | |];
+    try (cbn [parse_char]; split; intros H; discriminate H).
+  destruct s as [|a [|b s]]; cbn [parse_char]; split; intros H; try discriminate H;
+    inversion H; reflexivity.
 Qed.
 Theorem char_rejects v : (forall c, v <> GStr [c]) -> exists e, parse_char v = Err e.
 Proof.
@@ -223,12 +225,13 @@ Definition denotes_id (v : gv) (s : str) : Prop :=
 
 Lemma spec_id_denotes v s : spec_id v = Ok s <-> denotes_id v s.
 Proof.
-  unfold denotes_id. destruct v; cbn; split; intros H; try discriminate;
-    try (destruct H as [H|[z [H _]]]; discriminate).
+  unfold denotes_id. destruct v as [|z|b|s0|b|l|s0|l|l]; cbn [spec_id]; split; intros H;
+    try discriminate H;
+    try (destruct H as [H|[z' [H _]]]; discriminate H).
   - inversion H. right. eexists; split; reflexivity.
-  - destruct H as [H|[z' [H ->]]]; [discriminate|]. inversion H; reflexivity.
+  - destruct H as [H|[z' [H ->]]]; [discriminate H|]. inversion H; reflexivity.
   - inversion H; left; reflexivity.
-  - destruct H as [H|[z' [H _]]]; [|discriminate]. inversion H; reflexivity.
+  - destruct H as [H|[z' [H _]]]; [|discriminate H]. inversion H; reflexivity.
 Qed.
 
 (* outside the known class (an integer above i64::MAX) ID accepts exactly what denotes an ID *)
@@ -236,9 +239,10 @@ Theorem id_exact v s :
   known_parse SID v = 0%N -> (parse_id v = Ok s <-> denotes_id v s).
 Proof.
   intros K. rewrite <- spec_id_denotes.
-  destruct v; cbn in *; try tauto.
+  destruct v as [|z|b|s0|b|l|s0|l|l]; cbn [spec_id parse_id known_parse] in *; try tauto;
+    try (split; intros H; discriminate H).
   unfold as_i64. unfold i64_max in *.
-  destruct (Z.ltb_spec 9223372036854775807 z); [discriminate|].
+  destruct (Z.ltb_spec 9223372036854775807 z); [discriminate K|].
   destruct (Z.ltb_spec z 0); [tauto|].
   destruct (Z.leb_spec z 9223372036854775807); [tauto|lia].
 Qed.
@@ -246,7 +250,7 @@ Qed.
 Theorem id_rejects v :
   (forall s, ~ denotes_id v s) -> exists c, parse_id v = Err c.
 Proof.
-  intros H. destruct v; cbn; try (eexists; reflexivity).
+  intros H. destruct v as [|z|b|s|b|l|s|l|l]; cbn [parse_id]; try (eexists; reflexivity).
   - exfalso. apply (H (dec_Z z)). right. eexists; split; reflexivity.
   - exfalso. apply (H s). left; reflexivity.
 Qed.
